@@ -258,7 +258,7 @@ def rewires(E, nmax):
 
 def harnesses(tier):
     q = tier == "quick"
-    T = 600 if q else 2400
+    T = 600 if q else 900
     hs = [H("table", table, {}, FUNCS,
             covers=['Rx', 'Ry', 'Rz', 'CRz', 'CRx', 'CU1'],
             engine="SYM (z3 QF_NRA, circle pairs)",
